@@ -23,9 +23,16 @@ impl HasKey<Secret> for V4 {
     type Key = SecretKey;
 
     fn decode(bytes: &[u8]) -> Result<SecretKey, PasetoError> {
-        crypto_sign::SecretKey::from_bytes(bytes)
-            .map(SecretKey)
-            .map_err(|_| PasetoError::InvalidKey)
+        let key = crypto_sign::SecretKey::from_bytes(bytes).map_err(|_| PasetoError::InvalidKey)?;
+
+        // the public half must be the one derived from the seed
+        let seed = crypto_sign::secret_key_to_seed(&key).map_err(|_| PasetoError::InvalidKey)?;
+        let derived = crypto_sign::keypair_from_seed(&seed).map_err(|_| PasetoError::InvalidKey)?;
+        if derived.secret_key.as_bytes()[32..] != key.as_bytes()[32..] {
+            return Err(PasetoError::InvalidKey);
+        }
+
+        Ok(SecretKey(key))
     }
     fn encode(key: &SecretKey) -> Box<[u8]> {
         key.0.as_bytes().to_vec().into_boxed_slice()
